@@ -54,8 +54,9 @@ def attr_escape(s):
 def statement_text(el, name):
     v = el[name]
     if name == 'define':
-        return '; '.join(('%s %s %s' % (sc, n, expr_text(e).replace(';', ';;'))) if sc != 'local'
-                         else '%s %s' % (n, expr_text(e).replace(';', ';;')) for sc, n, e in v)
+        tn = lambda n: n if isinstance(n, str) else '(' + ', '.join(n) + ')'   # noqa: E731  (several names at once)
+        return '; '.join(('%s %s %s' % (sc, tn(n), expr_text(e).replace(';', ';;'))) if sc != 'local'
+                         else '%s %s' % (tn(n), expr_text(e).replace(';', ';;')) for sc, n, e in v)
     if name in ('condition', 'switch', 'case'):
         return expr_text(v)
     if name == 'repeat':
